@@ -119,10 +119,13 @@ pub enum QueryPlan {
         decoded: TypedBufferRef,
     },
     /// Determines what dictionary index a string constant corresponds to.
+    /// If the constant is not in the (sorted) dictionary, the result depends on `rounding`:
+    /// 0 => -1, 1 => index of the largest smaller entry (-1 if none), 2 => index of the smallest larger entry (dictionary size if none).
     InverseDictLookup {
         offset_len: BufferRef<u64>,
         backing_store: BufferRef<u8>,
         constant: BufferRef<Scalar<&'static str>>,
+        rounding: u8,
         #[output]
         decoded: BufferRef<Scalar<i64>>,
     },
@@ -1400,7 +1403,7 @@ impl QueryPlan {
                         type_rhs
                             .codec
                             .clone()
-                            .encode_str(plan_lhs.scalar_str()?, planner)
+                            .encode_str(plan_lhs.scalar_str()?, dict_const_rounding(function, true), planner)
                             .into()
                     } else {
                         panic!("Can't elide decode on {:?}", plan_rhs)
@@ -1427,7 +1430,7 @@ impl QueryPlan {
                         type_lhs
                             .codec
                             .clone()
-                            .encode_str(plan_rhs.scalar_str()?, planner)
+                            .encode_str(plan_rhs.scalar_str()?, dict_const_rounding(function, false), planner)
                             .into()
                     } else {
                         panic!("Can't elide decode on {:?}", type_lhs);
@@ -2086,8 +2089,9 @@ pub(super) fn prepare<'a>(
             offset_len,
             backing_store,
             constant,
+            rounding,
             decoded,
-        } => operator::inverse_dict_lookup(offset_len, backing_store, constant, decoded),
+        } => operator::inverse_dict_lookup(offset_len, backing_store, constant, rounding, decoded),
         QueryPlan::Cast { input, casted } => operator::type_conversion(input, casted)?,
         QueryPlan::DeltaDecode {
             plan,
@@ -2399,6 +2403,18 @@ pub(super) fn prepare<'a>(
     };
     result.push(operation);
     Ok(result.last_buffer())
+}
+
+/// How a string constant that is missing from a sorted dictionary has to be encoded so that comparing dictionary
+/// indices with the encoded constant gives the same result as comparing the strings (see `InverseDictLookup`).
+/// A constant that is a strict upper bound (`col < c`) or an inclusive lower bound (`col >= c`) rounds up,
+/// an inclusive upper bound (`col <= c`) or a strict lower bound (`col > c`) rounds down.
+fn dict_const_rounding(function: Func2Type, const_is_lhs: bool) -> u8 {
+    match (function, const_is_lhs) {
+        (Func2Type::LT, false) | (Func2Type::GTE, false) | (Func2Type::GT, true) | (Func2Type::LTE, true) => 2,
+        (Func2Type::LTE, false) | (Func2Type::GT, false) | (Func2Type::GTE, true) | (Func2Type::LT, true) => 1,
+        _ => 0,
+    }
 }
 
 fn int_to_float_cast(
